@@ -247,6 +247,24 @@ def check(loop, H, total: bytes, cuts, schedule, ctx, replay, compare_datagram=F
         if dg != exp:
             ctx.violation("datagram-decoder-differs-from-reference-framing",
                           dict(got=dg[-1], expected=exp[-1], stream_len=len(total)), replay)
+        # the endpoint's own datagram path (the loop around the decoder in SOMEIPDatagramProtocol.datagram_received) delivers the same
+        # messages: every message in front of a rejected header or of the cut is handed on, nothing behind it
+        import someip.sd as _S
+        got_ep = []
+
+        class _P(_S.SOMEIPDatagramProtocol):
+            def message_received(self, someip_message, addr, multicast):
+                got_ep.append(lib_to_dict(someip_message))
+
+        try:
+            _P().datagram_received(total, ("192.0.2.18", 30518), False)
+        except Exception as exc:  # noqa: B902
+            got_ep.append(("raised", repr(exc)))
+        ctx.count("endpoint_datagram_path_agreement")
+        want_ep = [e[1] for e in exp if e[0] == "msg"]
+        if got_ep != want_ep:
+            ctx.violation("endpoint-datagram-path-delivers-other-messages-than-the-stream-reader",
+                          dict(delivered=len(got_ep), expected=len(want_ep), terminal=exp[-1][0], stream_len=len(total)), replay)
 
 
 def gen_stream(rng, kmax=8, maxpay=4096):
